@@ -7,6 +7,7 @@ package main
 
 import (
 	"fmt"
+	"sort"
 	"strings"
 	"time"
 
@@ -103,42 +104,61 @@ func calcV1(n, k uint32, d int64) (o obs) {
 // pollV0 / pollV1 drive the real ChangeView / ChangeViewV1 at base+t for each
 // cumulative time t; they return the final (offset, now - viewStartTime) and
 // the offset every evaluation started from.
-func pollV0(tol int64, k0 uint32, n int, ts []int64) (obs, []uint32) {
+func pollV0(tol int64, k0 uint32, n int, ts []int64) (o obs, starts []uint32, problem string) {
 	l := &listener{}
 	m := mock(n)
-	w := manager.NewViewVerif(m.CurrentArbitrators[0].GetNodePublicKey(), time.Duration(tol), base, k0, m, l)
-	var starts []uint32
-	now := base
-	for _, t := range ts {
-		starts = append(starts, w.Offset)
-		now = base.Add(time.Duration(t))
-		w.ChangeView(now)
+	p, v := lib.Recover(func() {
+		w := manager.NewViewVerif(m.CurrentArbitrators[0].GetNodePublicKey(), time.Duration(tol), base, k0, m, l)
+		now := base
+		for _, t := range ts {
+			starts = append(starts, w.Offset)
+			now = base.Add(time.Duration(t))
+			w.ChangeView(now)
+		}
+		o = obs{false, w.Offset, int64(now.Sub(w.ViewStartTime()))}
+	})
+	if p {
+		return obs{panicked: true}, starts, fmt.Sprint("panic: ", v)
 	}
-	return obs{false, w.Offset, int64(now.Sub(w.ViewStartTime()))}, starts
+	return
 }
 
-func pollV1(k0 uint32, n int, ts []int64) (obs, []uint32) {
+func pollV1(k0 uint32, n int, ts []int64) (o obs, starts []uint32, problem string) {
 	l := &listener{}
 	m := mock(n)
-	w := manager.NewViewVerif(m.CurrentArbitrators[0].GetNodePublicKey(), 5*time.Second, base, k0, m, l)
-	var starts []uint32
-	now := base
-	for _, t := range ts {
-		starts = append(starts, w.Offset)
-		now = base.Add(time.Duration(t))
-		changed := w.ChangeViewV1(now)
-		if changed != (w.Offset != starts[len(starts)-1]) {
-			panic("ChangeViewV1 result does not say whether the offset changed")
-		}
-		// the on-duty flag follows the offset
-		if changed && w.Offset > 0 {
-			want := int(w.Offset) % n
-			if w.IsOnDuty() != (want == 0) {
-				panic("on-duty flag does not match arbiters[offset mod n]")
+	p, v := lib.Recover(func() {
+		w := manager.NewViewVerif(m.CurrentArbitrators[0].GetNodePublicKey(), 5*time.Second, base, k0, m, l)
+		now := base
+		for _, t := range ts {
+			starts = append(starts, w.Offset)
+			now = base.Add(time.Duration(t))
+			changed := w.ChangeViewV1(now)
+			if changed != (w.Offset != starts[len(starts)-1]) {
+				problem = "ChangeViewV1 result does not say whether the offset changed"
+			}
+			// the on-duty flag follows the offset
+			if changed && w.Offset > 0 && w.IsOnDuty() != (int(w.Offset)%n == 0) {
+				problem = "on-duty flag does not match arbiters[offset mod n]"
 			}
 		}
+		o = obs{false, w.Offset, int64(now.Sub(w.ViewStartTime()))}
+	})
+	if p {
+		return obs{panicked: true}, starts, fmt.Sprint("panic: ", v)
 	}
-	return obs{false, w.Offset, int64(now.Sub(w.ViewStartTime()))}, starts
+	return
+}
+
+// periodic returns period, 2*period, ... up to horizon (at most maxPts points)
+func periodic(period, horizon int64, maxPts int) []int64 {
+	var ts []int64
+	for t := period; t <= horizon && len(ts) < maxPts; t += period {
+		ts = append(ts, t)
+	}
+	if len(ts) == 0 {
+		ts = []int64{period}
+	}
+	return ts
 }
 
 func gaps(ts []int64) []string {
@@ -183,11 +203,35 @@ func main() {
 	elaenv.InitLog(run.Out)
 	dlog.Init(run.Out, 255, 0, 0)
 	rng := lib.NewRng(run.Seed)
-	st := lib.NewStats("C26", "V0: tolerances 1ns..60s (and 0 -> panic) x durations at/around multiples, negative, random; V1: arbiter counts 0..36 (and 1 with offsets to 40 for every power of 20), offsets up to 3 rounds and at the uint32 wrap, durations aimed at slot boundaries +-1ns and random to several rounds; schedules: 1-6 polling points through the real ChangeView/ChangeViewV1, gaps small / slot-sized / large. nontrivial = at least one view change happened; distinct by (inputs, outputs)")
+	st := lib.NewStats("C26", "V0: tolerances 1ns..60s (and 0 -> panic), periodic polling at non-whole-second periods (5.9 s, 1.7 s, 0.999999999 s, tol+-1 ns ...) up to 250 points, 1 ns steps around view boundaries x durations at/around multiples, negative, random; V1: arbiter counts 0..36 (and 1 with offsets to 40 for every power of 20), offsets up to 3 rounds and at the uint32 wrap, durations aimed at slot boundaries +-1ns and random to several rounds; schedules: 1-6 polling points through the real ChangeView/ChangeViewV1, gaps small / slot-sized / large. nontrivial = at least one view change happened; distinct by (inputs, outputs)")
 	sh := &lib.Shards{Dir: run.Out, Imports: "From ELA Require Import model.C26_View corr.C26_corr.", CaseType: "C26_corr.case",
 		Mismatch: "C26_corr.mismatches", Scope: "Z", PerShard: 400}
 	id := 0
 	next := func() int { id++; return id }
+	// oracle failures are collected, capped per signature (lib keeps only 50 in
+	// total) and reported with the schedule-level property (one-shot =
+	// incremental) first, single-evaluation symptoms last
+	type pending struct {
+		prio      int
+		sig, what string
+		in        interface{}
+	}
+	var pend []pending
+	perSig := map[string]int{}
+	fail := func(sig, what string, in interface{}) {
+		perSig[sig]++
+		if perSig[sig] > 6 {
+			st.Hist["oracle_fail:"+sig]++
+			return
+		}
+		prio := 2
+		if strings.Contains(sig, "compositional") {
+			prio = 0
+		} else if strings.Contains(sig, "monotone") || sig == knownSig {
+			prio = 1
+		}
+		pend = append(pend, pending{prio, sig, what, in})
+	}
 
 	// ------------------------------------------------------------ V0 single evaluation
 	tols := []int64{1, 7, 1000, sec, 5 * sec, 10 * sec, 60 * sec, 4999999999}
@@ -197,10 +241,13 @@ func main() {
 		sh.Add(fmt.Sprintf("CV0 %d %s %s %s", i, lib.CoqZi(tol), lib.CoqZi(d), o.coq()))
 		st.LogCase(run.Out, i, map[string]interface{}{"op": "calculateOffsetTimeV0", "tol": tol, "d": d, "out": o.String()})
 		st.Count(fmt.Sprintf("v0:%d:%d:%s", tol, d, o), !o.panicked && o.k > 0, "calcV0")
+		if o.panicked && tol != 0 {
+			fail("calculateOffsetTimeV0:panic", "panics (divide by zero) with a non-zero sign tolerance", map[string]interface{}{"tol_ns": tol, "d_ns": d})
+		}
 		if !o.panicked && tol > 0 && d >= 0 {
 			// oracle: k*tol + r = d with 0 <= r < tol (as exact integers, k not wrapped)
 			if d/tol < 1<<32 && (int64(o.k)*tol+o.r != d || o.r < 0 || o.r >= tol) {
-				st.Fail("calculateOffsetTimeV0:decomposition", "offset*tolerance+remainder differs from the duration", map[string]interface{}{"tol": tol, "d": d, "out": o.String()})
+				fail("calculateOffsetTimeV0:decomposition", "offset*tolerance+remainder differs from the duration", map[string]interface{}{"tol": tol, "d": d, "out": o.String()})
 			}
 		}
 	}
@@ -235,6 +282,9 @@ func main() {
 		sh.Add(fmt.Sprintf("CV1 %d %d %d %d %s %s", i, fuel, n, k, lib.CoqZi(d), o.coq()))
 		st.LogCase(run.Out, i, map[string]interface{}{"op": "calculateOffsetTimeV1", "n": n, "k": k, "d": d, "out": o.String()})
 		st.Count(fmt.Sprintf("v1:%d:%d:%d:%s", n, k, d, o), !o.panicked && o.k != k, "calcV1")
+		if o.panicked && n != 0 {
+			fail("calculateOffsetTimeV1:panic", "panics with a non-zero arbiter count", map[string]interface{}{"n": n, "k": k, "d_ns": d})
+		}
 		return o
 	}
 	doV1(0, 0, 5*sec)
@@ -288,28 +338,44 @@ func main() {
 	}
 
 	// ------------------------------------------------------------ V0 schedules
-	doPoll0 := func(tol int64, k0 uint32, ts []int64) {
-		inc, _ := pollV0(tol, k0, 3, ts)
-		one, _ := pollV0(tol, k0, 3, ts[len(ts)-1:])
+	doPoll0 := func(tol int64, k0 uint32, ts []int64, kind string) {
+		inc, _, prob := pollV0(tol, k0, 3, ts)
+		one, _, prob1 := pollV0(tol, k0, 3, ts[len(ts)-1:])
 		i := next()
 		sh.Add(fmt.Sprintf("CPoll0 %d %s %d %s %s", i, lib.CoqZi(tol), k0, lib.CoqList(gaps(ts)), inc.coq()))
-		st.LogCase(run.Out, i, map[string]interface{}{"op": "ChangeView schedule", "tol": tol, "k0": k0, "times_ns": ts, "incremental": inc.String(), "oneshot": one.String()})
-		st.Count(fmt.Sprintf("p0:%d:%d:%v:%s", tol, k0, ts, inc), inc.k != k0 && len(ts) > 1, "pollV0")
-		if inc != one {
-			st.Fail("ChangeView:compositional", "V0: evaluating at intermediate times differs from one evaluation at the final time", map[string]interface{}{"tol": tol, "k0": k0, "times_ns": ts, "incremental": inc.String(), "oneshot": one.String()})
+		logTs := ts
+		if len(logTs) > 12 {
+			logTs = append(append([]int64{}, ts[:6]...), ts[len(ts)-6:]...)
+		}
+		st.LogCase(run.Out, i, map[string]interface{}{"op": "ChangeView schedule", "tol": tol, "k0": k0, "points": len(ts), "times_ns(first/last 6)": logTs, "incremental": inc.String(), "oneshot": one.String()})
+		st.Count(fmt.Sprintf("p0:%d:%d:%v:%s", tol, k0, ts, inc), inc.k != k0 && len(ts) > 1, kind)
+		if prob != "" || prob1 != "" {
+			fail("ChangeView:panic", "V0: ChangeView panics: "+prob+prob1, map[string]interface{}{"tol_ns": tol, "k0": k0, "times_ns": logTs})
+		} else if inc != one {
+			// shortest prefix of the schedule on which polling and one evaluation already differ
+			L := len(ts)
+			for l := 2; l < len(ts); l++ {
+				a, _, _ := pollV0(tol, k0, 3, ts[:l])
+				b, _, _ := pollV0(tol, k0, 3, ts[l-1:l])
+				if a != b {
+					L, inc, one = l, a, b
+					break
+				}
+			}
+			fail("ChangeView:compositional", "V0: evaluating at intermediate times differs from one evaluation at the final time", map[string]interface{}{"tol_ns": tol, "k0": k0, "times_ns": ts[:L], "incremental(offset/remainder_ns)": inc.String(), "oneshot": one.String()})
 		}
 		// monotone: one-shot offsets at increasing times never decrease (no wrap in these inputs)
 		prev := uint32(0)
 		for j, t := range ts {
 			o := calcV0(tol, t)
 			if j > 0 && o.k < prev {
-				st.Fail("calculateOffsetTimeV0:monotone", "offset decreased with time", map[string]interface{}{"tol": tol, "times_ns": ts})
+				fail("calculateOffsetTimeV0:monotone", "offset decreased with time", map[string]interface{}{"tol_ns": tol, "times_ns": logTs})
 			}
 			prev = o.k
 		}
 	}
-	doPoll0(10*sec, 0, []int64{9 * sec, 10 * sec, 25 * sec})
-	doPoll0(10*sec, 4294967295, []int64{10 * sec, 20 * sec}) // *viewOffset += offset wraps the same way either way
+	doPoll0(10*sec, 0, []int64{9 * sec, 10 * sec, 25 * sec}, "pollV0")
+	doPoll0(10*sec, 4294967295, []int64{10 * sec, 20 * sec}, "pollV0") // *viewOffset += offset wraps the same way either way
 	for i := 0; i < run.N(150, 5000); i++ {
 		tol := tols[1+rng.Intn(len(tols)-1)]
 		m := rng.Range(1, 6)
@@ -328,18 +394,46 @@ func main() {
 			}
 			ts = append(ts, t)
 		}
-		doPoll0(tol, uint32(rng.Intn(40)), ts)
+		doPoll0(tol, uint32(rng.Intn(40)), ts, "pollV0")
+	}
+	// periodic polling at periods that are not a whole number of seconds (the
+	// remainder carried between evaluations has a sub-second part every time),
+	// whole-second tolerances as configured on the networks; and 1 ns steps
+	// around view boundaries
+	wholeTols := []int64{sec, 5 * sec, 10 * sec, 60 * sec}
+	for _, tol := range wholeTols {
+		for _, p := range []int64{5900000000, 1700000000, 999999999, 1000000001, tol - 1, tol + 1, tol/3 + 1, 2*tol + sec/2} {
+			doPoll0(tol, uint32(rng.Intn(3)), periodic(p, 240*sec, 250), "pollV0-periodic")
+		}
+		var ts []int64
+		for q := int64(1); q <= 4; q++ {
+			ts = append(ts, q*tol-1, q*tol, q*tol+1)
+		}
+		doPoll0(tol, 0, ts, "pollV0-boundary")
+		doPoll0(tol, 7, []int64{tol - 1, 2*tol - 2, 3*tol - 3, 3 * tol}, "pollV0-boundary")
+	}
+	for i := 0; i < run.N(40, 3000); i++ {
+		tol := wholeTols[rng.Intn(len(wholeTols))]
+		p := 1 + int64(rng.U64()%uint64(2*tol))
+		doPoll0(tol, uint32(rng.Intn(40)), periodic(p, int64(rng.Range(20, 240))*sec, 120), "pollV0-periodic")
 	}
 
 	// ------------------------------------------------------------ V1 schedules
 	knownSeen := 0
 	doPoll1 := func(n int, k0 uint32, ts []int64, kind string) {
-		inc, starts := pollV1(k0, n, ts)
-		one, _ := pollV1(k0, n, ts[len(ts)-1:])
+		inc, starts, prob := pollV1(k0, n, ts)
+		one, _, prob1 := pollV1(k0, n, ts[len(ts)-1:])
+		if prob != "" || prob1 != "" {
+			fail("ChangeViewV1:panic-or-inconsistent", "V1: "+prob+prob1, map[string]interface{}{"arbiters": n, "start_offset": k0, "points": len(ts)})
+		}
 		i := next()
 		fuel := inc.k - k0 + 2
 		sh.Add(fmt.Sprintf("CPoll1 %d %d %d %d %s %s", i, fuel, n, k0, lib.CoqList(gaps(ts)), inc.coq()))
-		st.LogCase(run.Out, i, map[string]interface{}{"op": "ChangeViewV1 schedule", "n": n, "k0": k0, "times_ns": ts, "incremental": inc.String(), "oneshot": one.String(), "starts": starts})
+		logTs := ts
+		if len(logTs) > 12 {
+			logTs = append(append([]int64{}, ts[:6]...), ts[len(ts)-6:]...)
+		}
+		st.LogCase(run.Out, i, map[string]interface{}{"op": "ChangeViewV1 schedule", "n": n, "k0": k0, "points": len(ts), "times_ns(first/last 6)": logTs, "incremental": inc.String(), "oneshot": one.String(), "starts": starts})
 		st.Count(fmt.Sprintf("p1:%d:%d:%v:%s", n, k0, ts, inc), inc.k != k0 && len(ts) > 1, kind)
 		// the input class of the recorded finding: some evaluation starts at an
 		// offset >= n that an earlier evaluation moved to
@@ -354,10 +448,25 @@ func main() {
 			if restartBeyondRound {
 				knownSeen++
 				if knownSeen <= 3 { // keep the (capped) failure list free for anything else
-					st.Fail(knownSig, "V1: polling changes the schedule", in)
+					fail(knownSig, "V1: polling changes the schedule", in)
 				}
 			} else {
-				st.Fail("ChangeViewV1:compositional", "V1: evaluating at intermediate times differs from one evaluation at the final time although every evaluation started below arbitersCount (or at the initial offset)", in)
+				// shortest prefix (outside the known class) on which the two already differ
+				for l := 2; l < len(ts); l++ {
+					a, sa, _ := pollV1(k0, n, ts[:l])
+					b, _, _ := pollV1(k0, n, ts[l-1:l])
+					beyond := false
+					for _, x := range sa {
+						if x >= uint32(n) && x != k0 {
+							beyond = true
+						}
+					}
+					if a != b && !beyond {
+						in = map[string]interface{}{"arbiters": n, "start_offset": k0, "times_ns": ts[:l], "incremental(offset/remainder_ns)": a.String(), "oneshot": b.String(), "evaluation_start_offsets": sa}
+						break
+					}
+				}
+				fail("ChangeViewV1:compositional", "V1: evaluating at intermediate times differs from one evaluation at the final time although every evaluation started below arbitersCount (or at the initial offset)", in)
 			}
 		}
 		// monotone in time, one-shot and along the incremental run
@@ -365,13 +474,13 @@ func main() {
 		for j, t := range ts {
 			o := calcV1(uint32(n), k0, t)
 			if j > 0 && o.k < prev {
-				st.Fail("calculateOffsetTimeV1:monotone", "offset decreased with time", map[string]interface{}{"n": n, "k0": k0, "times_ns": ts})
+				fail("calculateOffsetTimeV1:monotone", "offset decreased with time", map[string]interface{}{"n": n, "k0": k0, "times_ns": ts})
 			}
 			prev = o.k
 		}
 		for j := 1; j < len(starts); j++ {
 			if starts[j] < starts[j-1] {
-				st.Fail("ChangeViewV1:monotone", "view offset decreased along a polling schedule", map[string]interface{}{"n": n, "k0": k0, "times_ns": ts})
+				fail("ChangeViewV1:monotone", "view offset decreased along a polling schedule", map[string]interface{}{"n": n, "k0": k0, "times_ns": ts})
 			}
 		}
 	}
@@ -381,6 +490,33 @@ func main() {
 	doPoll1(3, 0, []int64{4 * sec, 9 * sec, 14 * sec}, "pollV1-corpus")
 	doPoll1(3, 5, []int64{64 * sec, 124 * sec}, "pollV1-corpus") // starts beyond the round and stays at the initial offset first
 	doPoll1(36, 35, []int64{5 * sec, 10 * sec, 75 * sec}, "pollV1-corpus")
+
+	// periodic polling, periods that are not whole seconds; horizons inside the
+	// first round (the class the theorem covers) and across its end
+	for _, n := range []int{1, 2, 3, 5, 12, 24, 36} {
+		for _, p := range []int64{5900000000, 1700000000, 999999999, 1000000001, 4999999999, 5000000001, 2500000000} {
+			k0 := uint32(rng.Intn(n))
+			inRound := (int64(n) - int64(k0)) * 5 * sec
+			doPoll1(n, k0, periodic(p, inRound, 250), "pollV1-periodic-below")
+			doPoll1(n, k0, periodic(p, inRound+int64(rng.Range(1, 140))*sec, 250), "pollV1-periodic")
+		}
+		// 1 ns steps around every view boundary of the first round
+		var ts []int64
+		for q := int64(1); q <= int64(n) && q <= 12; q++ {
+			ts = append(ts, q*5*sec-1, q*5*sec, q*5*sec+1)
+		}
+		doPoll1(n, 0, ts, "pollV1-boundary")
+	}
+	for i := 0; i < run.N(40, 3000); i++ {
+		n := rng.Range(1, 36)
+		k0 := uint32(rng.Intn(n))
+		p := 1 + int64(rng.U64()%uint64(12*sec))
+		inRound := (int64(n) - int64(k0)) * 5 * sec
+		if rng.Bool() {
+			inRound += int64(rng.Range(1, 200)) * sec
+		}
+		doPoll1(n, k0, periodic(p, inRound, 120), "pollV1-periodic")
+	}
 
 	genSchedule := func(n int, k0 uint32, below bool) []int64 {
 		m := rng.Range(1, 6)
@@ -438,6 +574,10 @@ func main() {
 				}
 			}
 		}
+	}
+	sort.SliceStable(pend, func(a, b int) bool { return pend[a].prio < pend[b].prio })
+	for _, f := range pend {
+		st.Fail(f.sig, f.what, f.in)
 	}
 	st.Extra["known_finding_inputs_seen"] = knownSeen
 	st.Traces = st.Evals
